@@ -58,12 +58,32 @@ func (w *World) findProcRolesUncached() *procRoles {
 	pr.applyMW = pr.lta.applyMW
 	pr.problems = append(pr.problems, pr.lta.problems...)
 	evStop := EvInvoke("Inboxer.Stop", w.IfaceMethod("actor", "Inboxer", "Stop"))
+	var stopCands []*ssa.Function
+	pickStop := func() {
+		// the stop function closes the inbox; when several functions do, it is the one that also unregisters the actor
+		// (the others are judged by the typestate analysis as what they are: an inbox closed in mid-life)
+		if len(stopCands) > 1 {
+			var both []*ssa.Function
+			evRem := EvCall("Registry.Remove", w.Method("actor", "Registry", "Remove"))
+			for _, fn := range stopCands {
+				if len(w.callsIn(fn, evRem)) > 0 {
+					both = append(both, fn)
+				}
+			}
+			if len(both) == 1 {
+				stopCands = both
+			}
+		}
+		if len(stopCands) > 1 {
+			bad("two stop functions (callers of Inboxer.Stop): %s, %s", fname(stopCands[0]), fname(stopCands[1]))
+		}
+		if len(stopCands) > 0 {
+			pr.stopFn = stopCands[len(stopCands)-1]
+		}
+	}
 	for _, fn := range w.MethodsOf("actor", "process") {
 		if fn.Parent() == nil && len(w.callsIn(fn, evStop)) > 0 {
-			if pr.stopFn != nil {
-				bad("two stop functions (callers of Inboxer.Stop): %s, %s", fname(pr.stopFn), fname(fn))
-			}
-			pr.stopFn = fn
+			stopCands = append(stopCands, fn)
 		}
 		for _, in := range w.insOf(fn) {
 			{
@@ -85,6 +105,7 @@ func (w *World) findProcRolesUncached() *procRoles {
 			}
 		}
 	}
+	pickStop()
 	for _, rf := range pr.recovers {
 		for _, in := range w.insOf(rf) {
 			{
@@ -191,6 +212,7 @@ var ltaProtocolKinds = []string{
 	"incarnation-replaced-without-Stopped", "delivery-after-Stopped", "Stopped-twice", "Initialized-out-of-order",
 	"Started-out-of-order", "user-message-before-Started", "delivery-of-unknown-message", "Stopped-without-incarnation",
 	"terminated-without-Stopped", "spawn-returns-before-Started", "unclassified-delivery", "inbox-started-after-cleanup", "spawn-leaves-inbox-closed",
+	"inbox-reopened-by-worker", "delivery-concurrent-with-worker",
 }
 
 func checkC04(w *World, r *Report) {
@@ -257,6 +279,14 @@ func checkC04(w *World, r *Report) {
 	r.Rule("C04.R4", "the worker loop re-reads the status before every batch: nothing is handed to a process that the previous batch stopped", 1)
 	checkLoopStatus(w, r, "C04.R4")
 	checkInboxStopStores(w, r, "C04.R4")
+	// R5: what was accepted for the PID stays with the PID across incarnations: the messages behind a failing one are
+	// handed to the incarnation that finally starts (C05.R2's buffer rules)
+	if r.Prop == "C04" {
+		r.Rule("C04.R5", "the messages queued behind a failing one survive until an incarnation has started (C05.R2: the restart buffer is neither dropped nor cleared before its replay)", 1)
+		importRules(w, r, checkC05, "C05", "C04.R5", func(o *Obligation) bool {
+			return o.Rule == "C05.R2" && (strings.HasPrefix(o.Key, "C05.R2|restart-buffer-dropped") || strings.HasSuffix(o.Key, ":clears-replayed-buffer"))
+		})
+	}
 }
 
 // checkStopFn: shared by C04.R2, C06.R3.
@@ -309,6 +339,13 @@ func checkC05(w *World, r *Report) {
 		return
 	}
 	pr.lta.export(r, "C05.R1", []string{"panic-escapes"}, "a panic in Receive never leaves the actor")
+	if r.Prop == "C05" {
+		// what is sent while the actor is down waits in the ring, which may have to grow under it
+		r.Rule("C05.R5", "messages sent during the restart wait in the ring in order: pops, pushes and the grow transfer are sound (C14.R2-R5)", 8)
+		importRules(w, r, checkC14, "C14", "C05.R5", func(o *Obligation) bool {
+			return o.Rule == "C14.R2" || o.Rule == "C14.R3" || o.Rule == "C14.R4" || o.Rule == "C14.R5"
+		})
+	}
 	pr.lta.export(r, "C05.R2", []string{"incarnation-replaced-without-Stopped", "Initialized-out-of-order", "Started-out-of-order", "user-message-before-Started", "inbox-started-after-cleanup", "restart-buffer-dropped", "unclassified-delivery", "chain-does-not-end-in-the-receiver"}, "restart order; every delivery goes to the current incarnation's receiver")
 
 	// R2: both recover handlers exist and hand the panic value to the restart function, synchronously
@@ -688,6 +725,7 @@ func checkC06(w *World, r *Report) {
 	g := w.FGI(pr.restartFn)
 	evStart := EvCall("Start", pr.start)
 	evStopFn := EvCall("stop", pr.stopFn)
+	exact := false // the budget is tested with == / != : the counter must never step over MaxRestarts
 	exhausted, within := g.CondEdges(func(v ssa.Value) (bool, bool) {
 		b, ok := v.(*ssa.BinOp)
 		if !ok {
@@ -713,8 +751,10 @@ func checkC06(w *World, r *Report) {
 		}
 		switch op {
 		case token.EQL, token.GEQ:
+			exact = exact || op == token.EQL
 			return true, true
 		case token.NEQ, token.LSS:
+			exact = exact || op == token.NEQ
 			return false, true
 		}
 		return false, false
@@ -733,6 +773,19 @@ func checkC06(w *World, r *Report) {
 				r.Check(ok, "C06.R1", key, "this restart is on the within-budget edge and is counted", w.pos(ci.Pos()),
 					"Start is reachable without passing the budget check or without incrementing restarts: this path restarts the actor without bound")
 			}
+		}
+		// an equality test only stops a counter that arrives at MaxRestarts one step at a time, from below: every
+		// increment has to sit behind the within-budget edge (an increment on an unchecked path steps over the bound,
+		// and from then on no panic ever finds restarts == MaxRestarts again)
+		if exact {
+			var loose []string
+			for _, n := range members(inc) {
+				if !g.OnlyVia(within, n) {
+					loose = append(loose, w.pos(g.ins[n].Pos()))
+				}
+			}
+			r.Check(len(loose) == 0, "C06.R1", fname(pr.restartFn)+":counter-stops-at-the-bound", "the budget is tested for equality, so restarts is only incremented behind the within-budget edge", w.fnPos(pr.restartFn),
+				"restarts is incremented at "+strings.Join(loose, ", ")+" without having been compared with MaxRestarts on that path: it can step over the bound, after which the equality test never holds and the actor restarts without limit")
 		}
 		okX := true
 		detail := ""
@@ -773,6 +826,7 @@ func checkC06(w *World, r *Report) {
 	pr.lta.export(r, "C06.R2", []string{"nil-func-call"}, "no nil function value is called")
 	checkStopFn(w, r, pr, "C06.R3")
 	checkChildrenRegion(w, r, pr, "C06.R3")
+	checkSafeMapLen(w, r, "C06.R3")
 	budgetPath := ">" + pr.restartFn.Name() + ">" + pr.stopFn.Name()
 	pr.lta.exportIf(r, "C06.R4", []string{"panic-escapes", "Stopped-twice", "terminated-without-Stopped", "inbox-started-after-cleanup", "delivery-after-Stopped"},
 		"clean termination at the restart budget", func(f lfinding) bool {
@@ -1062,6 +1116,18 @@ func checkC07(w *World, r *Report) {
 	importRules(w, r, checkC05, "C05", "C07.R8", func(o *Obligation) bool {
 		return o.Rule == "C05.R3" && strings.Contains(o.Key, "buffer-from-cursor") || o.Rule == "C05.R2" && (strings.Contains(o.Key, "replay-before-inbox") || strings.Contains(o.Key, "clears-replayed-buffer"))
 	})
+	if r.Prop == "C07" {
+		// the pill reaches the process the PID names, and the inbox it is pushed into wakes up for it
+		r.Rule("C07.R9", "a pill reaches the live actor: a losing duplicate spawn does not take over the registry entry (C10.R2), and an inbox wakes up for every accepted message (C03.R1-R3, R7)", 6)
+		if a := w.sendAnchors(); a.missing() == "" {
+			checkRegistryAdd(w, r, "C07.R9", a)
+		} else {
+			r.Unknown("C07.R9", "anchors", "resolve the registry API", "-", "missing: "+a.missing())
+		}
+		importRules(w, r, checkC03, "C03", "C07.R9", func(o *Obligation) bool {
+			return o.Rule == "C03.R1" || o.Rule == "C03.R2" || o.Rule == "C03.R3" || (o.Rule == "C03.R7" && strings.Contains(o.Key, "idle-writers"))
+		})
+	}
 	{
 		g := w.FGI(pr.stopFn)
 		var cancelP *ssa.Parameter
